@@ -84,8 +84,11 @@ class G:
             if kind == "struct" and d(st.integers(0, 4)) == 0:
                 base = d(st.sampled_from(["int", "unsigned", "long", "unsigned long", "unsigned char", "short", "unsigned short", "_Bool", "signed char"]))
                 w = 1 if base == "_Bool" else min(BITS[base], d(st.sampled_from([1, 2, 3, 7, 8, 9, 15, 16, 17, 31, 32, 33, 63, 64])))
+                if BITS[base] == 64 and d(st.booleans()):
+                    # fields that do not fit in 32 bits, at every bit offset within their first byte
+                    w = d(st.sampled_from([33, 34, 39, 40, 41, 47, 48, 56, 57, 60, 63]))
                 if d(st.integers(0, 8)) == 0:
-                    text.append("%s :%d;" % (base, d(st.sampled_from([0, 3, min(5, BITS[base])]))))
+                    text.append("%s :%d;" % (base, d(st.sampled_from([0, min(3, BITS[base]), min(5, BITS[base])]))))
                     members.append((None, None))
                 members.append((mn, T("scalar", base, bf=w)))
                 text.append("%s %s:%d;" % (base, mn, w))
@@ -117,7 +120,9 @@ class G:
                 al = ""
                 if d(st.integers(0, 7)) == 0:
                     # a member aligned beyond the widest store instruction: the enclosing types inherit the alignment
-                    al = "_Alignas(%d) " % d(st.sampled_from([16, 16, 32, 64]))
+                    # (never weaker than an alignment already used by a type of this unit: the member's type may contain one)
+                    self.maxal = max(getattr(self, "maxal", 0), d(st.sampled_from([16, 16, 32, 64])))
+                    al = "_Alignas(%d) " % self.maxal
                     self.labels.add("overaligned-member")
                 text.append(al + mt.decl(mn) + ";")
         self.defs.append("%s %s { %s };" % (kind, tag, " ".join(text)))
@@ -428,7 +433,7 @@ def init_cases(draw, nobj=4):
                 lit = "(%s){ %s }" % (tdn, ", ".join(g.value(et) for _ in range(m)))
                 k = len(objs)
                 if draw(st.booleans()):
-                    objs.append({"decl": "unsigned long xl%d" % k, "init": "sizeof(%s)" % draw(st.sampled_from([lit, lit[1:].replace(")", "", 1)])), "name": "xl%d" % k, "storage": "", "incomplete": False})
+                    objs.append({"decl": "unsigned long xl%d" % k, "init": draw(st.sampled_from(["sizeof(%s)", "sizeof %s"])) % lit, "name": "xl%d" % k, "storage": "", "incomplete": False})
                 else:
                     objs.append({"decl": "%s *xl%d" % (en, k), "init": lit, "name": "xl%d" % k, "storage": "", "incomplete": False})
                 g.labels.add("typedef-incomplete-array-compound-literal")
